@@ -689,9 +689,9 @@ def run(ctx):
     kernel_level(ctx)
     kernel_level_forms(ctx)
     spec_zone_forms(ctx)
-    ctx.explanation = ("13 theorems, parametric in the underlying grid and its operations (so independent of bloqade.geometry's arithmetic): "
+    ctx.explanation = ("23 theorems, parametric in the underlying grid and its operations (so independent of bloqade.geometry's arithmetic): "
                        "denotation, cumulative fill/vacate, shift/scale commute, views re-index for ALL index selections, repeat tiles for any "
-                       "shape, equality iff same underlying grid and vacancy set. Exact rational model of Grid for the correspondence; floats "
+                       "shape, equality iff same underlying grid and vacancy set, and the algebra of the operations (vacate/fill order-independent and idempotent, fill and vacate of the same sites cancel as sets, shift/scale commute with vacate and fill as values). Exact rational model of Grid for the correspondence; floats "
                        "restricted to dyadic values. Kernel-level statements compared with the methods on the Python side only.")
 
 
